@@ -430,8 +430,9 @@ Proof.
     exists 28, []. split; [reflexivity|]. intro rest.
     destruct HR as (H1 & H2 & H3). cbn [t_stack t_memory] in H1, H2. rewrite !live_cons_false in H1. cbn [map rn_term] in H1.
     unfold step, decode_op, step_i; cbn [app t_phase]. rewrite <- H1.
-    eexists. split; [reflexivity|]. unfold R, claims_view. cbn. rewrite live_cons_false, map_app. cbn.
-    rewrite H2. repeat split; try assumption. rewrite H1. reflexivity.
+    eexists. split; [reflexivity|]. unfold R, claims_view.
+    cbn [t_stack t_memory t_claims t_journal t_phase stack memory claims].
+    rewrite live_cons_false, map_app. cbn [map]. rewrite H2. repeat split; try assumption.
   - (* load *)
     destruct (index_of t (t_memory tr)) as [i|] eqn:Ei; [|discriminate].
     emit_simple He. destruct (existsb (term_eqb t) (t_memory tr)); [|discriminate]. inv Hs.
@@ -452,7 +453,7 @@ Proof.
     unfold claims_view in H3. cbn in H3.
     unfold step, decode_op, step_i; cbn [app t_phase]. rewrite <- H3, <- H1. cbn [pop_proved]. rewrite pat_eqb_refl.
     cbn [g guards_sound g_publish_claim_eq chk].
-    eexists. split; [reflexivity|]. unfold R, claims_view. cbn. rewrite live_cons_true.
+    eexists. split; [reflexivity|]. unfold R, claims_view. cbn.
     repeat split; try assumption; reflexivity.
   - (* publish axiom *)
     inv He. destruct tr as [ph stk me cl jo]. cbn in Hs. cbn [t_stack] in Hnr.
@@ -463,7 +464,7 @@ Proof.
     exists 30, []. split; [reflexivity|]. intro rest.
     destruct HR as (H1 & H2 & H3). cbn [t_stack t_memory] in H1, H2. rewrite !live_cons_false in H1. cbn [map rn_term] in H1.
     unfold step, decode_op, step_i; cbn [app t_phase]. rewrite <- H1. cbn [pop_pat].
-    eexists. split; [reflexivity|]. unfold R, claims_view. cbn. rewrite live_cons_true, map_app. cbn.
+    eexists. split; [reflexivity|]. unfold R, claims_view. cbn. rewrite map_app. cbn.
     rewrite H2. repeat split; try assumption; reflexivity.
   - (* publish claim *)
     inv He. destruct tr as [ph stk me cl jo]. cbn in Hs. cbn [t_stack] in Hnr.
@@ -475,8 +476,185 @@ Proof.
     destruct HR as (H1 & H2 & H3). cbn [t_stack t_memory] in H1, H2. rewrite !live_cons_false in H1. cbn [map rn_term] in H1.
     unfold claims_view in H3. cbn in H3.
     unfold step, decode_op, step_i; cbn [app t_phase]. rewrite <- H1. cbn [pop_pat].
-    eexists. split; [reflexivity|]. unfold R, claims_view. cbn. rewrite live_cons_true.
+    eexists. split; [reflexivity|]. unfold R, claims_view. cbn.
     rewrite H3. repeat split; try assumption; reflexivity.
 Qed.
 
 End Sim.
+
+(* ------------------------------------------------------------------------------------------ *)
+(** * Runs *)
+
+Definition g0 := guards_sound.
+
+(** every call of the run is inside the boundary *)
+Fixpoint wf_run (tr:tracker) (cs:list call) : Prop :=
+  match cs with
+  | [] => True
+  | c :: cs' => wf_call g0 tr c = true /\
+                match stateful_step tr c with Some tr' => wf_run tr' cs' | None => True end
+  end.
+
+Lemma set_tstack_phase : forall s tr, t_phase (set_tstack s tr) = t_phase tr.
+Proof. reflexivity. Qed.
+
+Lemma stateful_step_phase : forall tr c tr',
+  is_switch c = false -> stateful_step tr c = Some tr' -> t_phase tr' = t_phase tr.
+Proof.
+  intros tr c tr' Hsw H. destruct c; cbn [stateful_step is_switch] in *; try discriminate;
+    try (inv H; reflexivity).
+  - unfold binary in H. destruct (t_stack tr) as [|[? ?] [|[? ?] ?]]; try discriminate.
+    destruct (_ && _); inv H. reflexivity.
+  - unfold binary in H. destruct (t_stack tr) as [|[? ?] [|[? ?] ?]]; try discriminate.
+    destruct (_ && _); inv H. reflexivity.
+  - unfold unary in H. destruct (t_stack tr) as [|[? ?] ?]; try discriminate.
+    destruct (term_eqb _ _); inv H. reflexivity.
+  - unfold unary in H. destruct (t_stack tr) as [|[? ?] ?]; try discriminate.
+    destruct (term_eqb _ _); inv H. reflexivity.
+  - destruct (t_stack tr) as [|[? ?] [|[? ?] ?]]; try discriminate. destruct (_ && _); inv H. reflexivity.
+  - destruct (t_stack tr) as [|[? ?] [|[? ?] ?]]; try discriminate. destruct (_ && _); inv H. reflexivity.
+  - destruct (t_stack tr) as [|[? ?] [|[? ?] ?]]; try discriminate. destruct (_ && _); try discriminate.
+    destruct (extract_imp l) as [[? ?]|]; try discriminate. destruct (pat_eqb _ _); inv H. reflexivity.
+  - destruct (t_stack tr) as [|[? ?] ?]; try discriminate. destruct (term_eqb _ _); try discriminate.
+    destruct (extract_imp p) as [[? ?]|]; try discriminate. destruct (py_fresh _ _); inv H. reflexivity.
+  - unfold do_instantiate in H. destruct (negb _); try discriminate.
+    destruct (t_stack tr) as [|[? ?] ?]; try discriminate. destruct (term_eqb _ _); try discriminate.
+    destruct d; [destruct l; inv H; reflexivity|]. destruct (plugs_match _ _); inv H. reflexivity.
+  - unfold do_instantiate in H. destruct (negb _); try discriminate.
+    destruct (t_stack tr) as [|[? ?] ?]; try discriminate. destruct (term_eqb _ _); try discriminate.
+    destruct d; [inv H; reflexivity|]. destruct (plugs_match _ _); inv H. reflexivity.
+  - destruct (t_stack tr) as [|[? ?] ?]; try discriminate. destruct (term_eqb _ _); inv H. reflexivity.
+  - destruct (top_is _ _); inv H. reflexivity.
+  - destruct (existsb _ _); inv H. reflexivity.
+  - destruct (t_phase tr) eqn:E; try discriminate. destruct (t_claims tr); try discriminate.
+    destruct (_ && _); inv H. reflexivity.
+  - destruct (t_phase tr) eqn:E; try discriminate. destruct (top_is _ _); inv H. reflexivity.
+  - destruct (t_phase tr) eqn:E; try discriminate. destruct (top_is _ _); inv H. reflexivity.
+Qed.
+
+Lemma sim_run_app : forall f cs tbl tr st tblF trF bs,
+  R f tr st -> ser_run tbl tr cs = Some (tblF, trF, bs) -> wf_run tr cs -> agrees f tblF ->
+  forall more n, (length bs + length more <= n)%nat ->
+  exists st' n', (length more <= n')%nat /\
+    exec_fuel g0 n (t_phase tr) (bs ++ more) st = exec_fuel g0 n' (t_phase tr) more st' /\
+    R f trF st' /\ t_phase trF = t_phase tr.
+Proof.
+  induction cs as [|c cs IH]; intros tbl tr st tblF trF bs HR H Hwf Hf more n Hn; cbn in H.
+  - inv H. exists st, n. cbn in Hn. split; [lia|]. split; [reflexivity|]. split; [assumption | reflexivity].
+  - destruct (is_switch c) eqn:Esw; [discriminate|].
+    destruct (ser_step tbl tr c) as [[[t1 tr1] b1]|] eqn:E1; [|discriminate].
+    destruct (ser_run t1 tr1 cs) as [[[t2 tr2] b2]|] eqn:E2; [|discriminate]. inv H.
+    pose proof (ser_run_extends _ _ _ _ _ _ E2) as [m2 Hm2]. subst tblF.
+    unfold ser_step in E1.
+    destruct (stateful_step tr c) as [tr1'|] eqn:Es; [|discriminate].
+    destruct (emit tbl tr c) as [[t1' b1']|] eqn:Ee; [|discriminate]. inv E1.
+    cbn [wf_run] in Hwf. rewrite Es in Hwf. destruct Hwf as [Hwc Hwr].
+    destruct (sim_step f tbl tr st c tr1 t1 b1 HR Es Ee Esw Hwc (agrees_prefix _ _ _ Hf))
+      as (op & ops & -> & Hstep).
+    destruct (Hstep (b2 ++ more)) as (st1 & Hst1 & HR1).
+    rewrite app_length in Hn. cbn [length] in Hn.
+    destruct n as [|n]; [lia|].
+    pose proof (stateful_step_phase _ _ _ Esw Es) as Hph.
+    destruct (IH t1 tr1 st1 _ trF b2 HR1 E2 Hwr Hf more n ltac:(lia)) as (st' & n' & Hn' & Hrun & HRF & HphF).
+    exists st', n'. split; [exact Hn'|]. split; [|split; [exact HRF | eapply eq_trans; eassumption]].
+    rewrite <- app_assoc. cbn [app exec_fuel]. unfold g0 in *. rewrite Hst1. rewrite <- Hph. exact Hrun.
+Qed.
+
+(** one phase: the machine runs the bytes of the run without error and ends in a related state *)
+Theorem sim_run : forall f cs tbl tr st tblF trF bs,
+  R f tr st -> ser_run tbl tr cs = Some (tblF, trF, bs) -> wf_run tr cs -> agrees f tblF ->
+  exists st', exec g0 (t_phase tr) bs st = Some st' /\ R f trF st' /\ t_phase trF = t_phase tr.
+Proof.
+  intros f cs tbl tr st tblF trF bs HR H Hwf Hf.
+  destruct (sim_run_app f cs tbl tr st tblF trF bs HR H Hwf Hf [] (length bs)) as (st' & n' & _ & Hrun & HRF & Hph);
+    [cbn; lia|].
+  exists st'. rewrite app_nil_r in Hrun. unfold exec. rewrite Hrun. split; [destruct n'; reflexivity|]. split; assumption.
+Qed.
+
+(** the single-call form of the statement *)
+Theorem sim : forall f tbl tr st c tr' tbl' bs,
+  R f tr st -> stateful_step tr c = Some tr' -> emit tbl tr c = Some (tbl', bs) ->
+  is_switch c = false -> wf_call g0 tr c = true -> agrees f tbl' ->
+  exists st', exec g0 (t_phase tr) bs st = Some st' /\ R f tr' st'.
+Proof.
+  intros f tbl tr st c tr' tbl' bs HR Hs He Hsw Hwf Hf.
+  destruct (sim_step f tbl tr st c tr' tbl' bs HR Hs He Hsw Hwf Hf) as (op & ops & -> & Hstep).
+  destruct (Hstep []) as (st' & Hst & HR'). exists st'. split; [|exact HR'].
+  unfold exec, g0. cbn [length exec_fuel]. rewrite app_nil_r in Hst. rewrite Hst. destruct (length ops); reflexivity.
+Qed.
+
+Lemma sim_into_claim : forall f tr st tr',
+  R f tr st -> stateful_step tr CIntoClaim = Some tr' ->
+  R f tr' (set_stack [] st) /\ t_phase tr = Gamma /\ t_phase tr' = Claim.
+Proof.
+  intros f [ph s me cl jo] st tr' (H1 & H2 & H3) H. cbn in H. destruct ph; try discriminate. inv H.
+  unfold R, claims_view in *. cbn in *. repeat split; assumption.
+Qed.
+
+Lemma sim_into_proof : forall f tr st tr',
+  R f tr st -> stateful_step tr CIntoProof = Some tr' -> wf_call g0 tr CIntoProof = true ->
+  R f tr' (set_stack [] st) /\ t_phase tr = Claim /\ t_phase tr' = Proof.
+Proof.
+  intros f [ph s me cl jo] st tr' (H1 & H2 & H3) H Hwf. cbn in H. destruct ph; try discriminate. inv H.
+  unfold wf_call, wf_code in Hwf. cbn in Hwf.
+  destruct (pats_eqb jo cl) eqn:E; [|discriminate]. apply pats_eqb_eq in E. subst jo.
+  unfold R, claims_view in *. cbn in *. repeat split; assumption.
+Qed.
+
+Lemma R_fresh : forall f cl, R f (fresh_tracker Gamma cl) st0.
+Proof. intros. unfold R, claims_view. cbn. repeat split. Qed.
+
+(** a whole generation: the three files run on the checker in sequence (stack cleared in between,
+    as [verify] does) without error, and after each phase the states are related *)
+Theorem simulation_module : forall cl gcs ccs pcs t1 tr1 gb tr1' t2 tr2 cb tr2' t3 tr3 pb,
+  ser_run [] (fresh_tracker Gamma cl) gcs = Some (t1, tr1, gb) -> wf_run (fresh_tracker Gamma cl) gcs ->
+  stateful_step tr1 CIntoClaim = Some tr1' ->
+  ser_run t1 tr1' ccs = Some (t2, tr2, cb) -> wf_run tr1' ccs ->
+  stateful_step tr2 CIntoProof = Some tr2' -> wf_call g0 tr2 CIntoProof = true ->
+  ser_run t2 tr2' pcs = Some (t3, tr3, pb) -> wf_run tr2' pcs ->
+  let f := numbering t3 in
+  exists s1 s2 s3,
+    exec g0 Gamma gb st0 = Some s1 /\ R f tr1 s1 /\
+    exec g0 Claim cb (set_stack [] s1) = Some s2 /\ R f tr2 s2 /\
+    exec g0 Proof pb (set_stack [] s2) = Some s3 /\ R f tr3 s3.
+Proof.
+  intros cl gcs ccs pcs t1 tr1 gb tr1' t2 tr2 cb tr2' t3 tr3 pb H1 W1 S1 H2 W2 S2 WS2 H3 W3 f.
+  pose proof (ser_run_extends _ _ _ _ _ _ H2) as [m2 E2].
+  pose proof (ser_run_extends _ _ _ _ _ _ H3) as [m3 E3].
+  assert (F3 : agrees f t3) by apply numbering_agrees.
+  assert (F2 : agrees f t2) by (subst t3; eapply agrees_prefix; exact F3).
+  assert (F1 : agrees f t1) by (subst t2; eapply agrees_prefix; exact F2).
+  destruct (sim_run f gcs [] _ st0 t1 tr1 gb (R_fresh f cl) H1 W1 F1) as (s1 & X1 & R1 & P1).
+  destruct (sim_into_claim f tr1 s1 tr1' R1 S1) as (R1' & _ & Pc).
+  destruct (sim_run f ccs t1 tr1' _ t2 tr2 cb R1' H2 W2 F2) as (s2 & X2 & R2 & P2).
+  destruct (sim_into_proof f tr2 s2 tr2' R2 S2 WS2) as (R2' & _ & Pp).
+  destruct (sim_run f pcs t2 tr2' _ t3 tr3 pb R2' H3 W3 F3) as (s3 & X3 & R3 & P3).
+  exists s1, s2, s3. cbn in X1. rewrite Pc in X2. rewrite Pp in X3.
+  split; [exact X1|]. split; [exact R1|]. split; [exact X2|]. split; [exact R2|]. split; [exact X3 | exact R3].
+Qed.
+
+(** every Load the serialiser emits addresses the FIRST memory slot that holds the intended term,
+    on the generator side and (under R) on the checker side *)
+Theorem load_index_correct : forall f tbl tr st t tr' tbl' bs,
+  R f tr st -> stateful_step tr (CLoad t) = Some tr' -> emit tbl tr (CLoad t) = Some (tbl', bs) ->
+  exists i, bs = [29; N.of_nat i] /\
+    nth_error (t_memory tr) i = Some t /\
+    nth_error (memory st) i = Some (rn_term f t) /\
+    (forall j u, (j < i)%nat -> nth_error (t_memory tr) j = Some u -> u <> t).
+Proof.
+  intros f tbl tr st t tr' tbl' bs (H1 & H2 & H3) Hs He. cbn in He.
+  destruct (index_of t (t_memory tr)) as [i|] eqn:Ei; [|discriminate].
+  emit_simple He. exists i. split; [reflexivity|].
+  pose proof (index_of_nth _ _ _ Ei) as Hn. split; [exact Hn|]. split.
+  - rewrite <- H2. apply map_nth_error. exact Hn.
+  - intros j u Hj Hu. unfold index_of in Ei.
+    assert (G : forall m k, index_from k t m = Some i ->
+                forall j u, (j + k < i)%nat -> nth_error m j = Some u -> u <> t).
+    { induction m as [|v m IH]; intros k Ek j0 u0 Hj0 Hu0; [destruct j0; discriminate|].
+      cbn in Ek. destruct (term_eqb v t) eqn:E.
+      - inv Ek. lia.
+      - destruct j0 as [|j0]; cbn in Hu0.
+        + inv Hu0. intro X. subst. rewrite term_eqb_refl in E. discriminate.
+        + apply (IH (S k) Ek j0 u0); [lia | exact Hu0]. }
+    apply (G (t_memory tr) 0%nat Ei j u); [lia | exact Hu].
+Qed.
